@@ -2284,6 +2284,18 @@ func (e *Engine) intrinsic(st *State, f *Frame, x *ssa.Call, fn *ssa.Function, n
 		return nil, true
 	case "fmt.Sprintf":
 		return e.constString("<sprintf>"), true
+	case "(*strings.Builder).WriteString":
+		return TupleV{args[1].(StringV).Len, IfaceV{}}, true
+	case "(*strings.Builder).WriteRune":
+		return TupleV{c64(1), IfaceV{}}, true
+	case "(*strings.Builder).WriteByte":
+		return IfaceV{}, true
+	case "(*strings.Builder).Grow", "(*strings.Builder).Reset":
+		return nil, true
+	case "(*strings.Builder).Len":
+		return c64(0), true
+	case "(*strings.Builder).String":
+		return e.constString("<strings.Builder>"), true
 	case "errors.Is":
 		return BoolC(e.errorsIs(st, args[0].(IfaceV), args[1].(IfaceV), 0)), true
 	case "sort.Strings":
